@@ -49,6 +49,7 @@ type Gen struct {
 	idx       int
 	out       *bufio.Writer
 	flushLine bool
+	faultCnt  int
 }
 
 func (g *Gen) Thorough() bool { return g.Tier == "thorough" }
@@ -71,7 +72,47 @@ func (g *Gen) Rng(label string) *SplitMix {
 
 // Emit executes the ops of one case on the real code and writes the trace.
 func (g *Gen) Emit(kind string, params []string, ops []string) {
-	runCase(g.out, g.flushLine, kind, params, ops)
+	runCase(g.out, g.flushLine, kind, params, g.faultLines(kind, ops))
+}
+
+// faultKinds: kinds whose lines are independent calls of helpers that take callbacks (plus the read-only
+// Traverse of the trees).  For these, every few callback-taking lines the generator repeats the line as a
+// fault line (the callback panics at its k-th invocation, the harness recovers) followed by the plain line
+// again: a call that was cut short must not change the answer of the next one.
+var faultKinds = map[string]bool{"c11": true, "c12": true, "c13": true, "c14": true, "bst": true, "btree": true}
+
+func isCallbackTok(t string) bool {
+	return len(t) == 2 && t[0] >= 'a' && t[0] <= 'z' && t[1] >= '0' && t[1] <= '9'
+}
+
+func (g *Gen) faultLines(kind string, ops []string) []string {
+	if !faultKinds[kind] {
+		return ops
+	}
+	out := make([]string, 0, len(ops)+8)
+	for _, op := range ops {
+		out = append(out, op)
+		toks := strings.Fields(op)
+		if len(toks) == 0 {
+			continue
+		}
+		takes := toks[0] == "traverse"
+		for _, t := range toks[1:] {
+			if isCallbackTok(t) {
+				takes = true
+			}
+		}
+		if !takes {
+			continue
+		}
+		g.faultCnt++
+		if g.faultCnt%5 != 0 {
+			continue
+		}
+		k := 1 + (g.faultCnt/5)%4
+		out = append(out, "fault "+itoa(k)+" "+op, op)
+	}
+	return out
 }
 
 var curOut *bufio.Writer
